@@ -957,3 +957,16 @@ Print Assumptions nested_step_perm.
 Print Assumptions flat_step_perm.
 Print Assumptions compose_nested_perm.
 Print Assumptions compose_flat_perm.
+
+(* NOT PROVED: nothing of O1-O8 is left open.  Remarks.
+   - O5: index_str is not injective on all of N (Example index_str_not_inj: dec_digits has fuel 20 and drops leading
+     digits, so 26*(10^20-1) and 26*(2*10^20-1) get the same index string) and then min_parent does depend on the
+     arrival order (Example min_parent_order_dep).  min_parent_perm / min_parent_ext therefore carry the decidable side
+     condition idx_ok x := x / 26 + 1 < 10^20 (implied by x < 26 * 10^18) on the members.  NoDup and l <> [] turned
+     out to be unnecessary (they are accepted and ignored by min_parent_perm).
+   - O6/O7: the hypothesis ms g = ms g' is unnecessary (accepted and ignored); extract_root_spec shows that the model's
+     fuel S (length (ms g)) * S (length (ps g)) is always enough (1 + length (ps g) suffices, roots_from_spec).
+   - Every *_perm theorem has an *_ext companion that only assumes equal sets of elements (same_elts), which also
+     covers repeated arrivals.
+   - Out of scope here (no set iteration is visible in these model functions, they are deterministic list programs):
+     the registry sites (_merge: pointers / child_pointers, merge_models: gr1 | gr2) and merge_field_sets. *)
